@@ -12,6 +12,11 @@
                "http"     stateless HTTP: init, each continuation / exchange turn and cancel are dispatches;
                           a producer's first step runs inside /init and its batch is pre-loaded by the client
                           (DESIGN 7a), close() sends nothing
+                          The driver concretises "http" on four deployments, which the model does not distinguish
+                          because the log must not: one warm worker; call-state cache disabled; two workers
+                          sharing the token key with requests alternating; one-entry cache with a second stream
+                          interleaved turn by turn (every continuation then resolves its call from the echoed
+                          call token instead of the cache).  Records of all workers are judged together.
                "httpcap"  HTTP with max_response_bytes: a too large unary result / exchange output is
                           replaced by an error (cap overshoot); only unary and exchange kinds are used here
 
@@ -108,12 +113,17 @@ StreamCall(c, m) ==
                                  /\ st' = [NoStream EXCEPT !.sid = nsid, !.dead = TRUE, !.d = NewD]
              ELSE /\ outc' = Append(outc, "unobs") /\ Ev("call", "ok") /\ pc' = "open" /\ UNCHANGED alog
                   /\ st' = [NoStream EXCEPT !.sid = nsid, !.d = NewD]
-        ELSE \* HTTP /init: a producer's first step runs inside it
-             LET fails == c.site = "init" \/ (IsProd(c) /\ RaisesAt(c, 1)) IN
-             /\ outc' = Append(outc, IF fails THEN "err" ELSE "ok")
+        ELSE \* HTTP /init: a producer's first step runs inside it.  When that step raises after the header was
+             \* written, the client keeps the header and raises at the first tick (as a socket client sees it); a
+             \* client that leaves without ticking never observes the error.  The dispatch has failed either way.
+             LET fails == c.site = "init" \/ (IsProd(c) /\ RaisesAt(c, 1))
+                 deferred == fails /\ hdr /\ c.site # "init" IN
+             /\ outc' = Append(outc, IF deferred THEN "unobs" ELSE IF fails THEN "err" ELSE "ok")
              /\ alog' = Append(alog, RecM(m, i, NewD, "stream", nsid, IF fails THEN "error" ELSE "ok", TRUE, FALSE))
-             /\ Ev("call", IF fails THEN "err" ELSE "ok")
-             /\ IF fails THEN Over
+             /\ Ev("call", IF fails /\ ~deferred THEN "err" ELSE "ok")
+             /\ IF deferred THEN /\ pc' = "open"
+                                 /\ st' = [NoStream EXCEPT !.sid = nsid, !.dead = TRUE, !.d = NewD]
+                ELSE IF fails THEN Over
                 ELSE /\ pc' = "open"
                      /\ st' = [NoStream EXCEPT !.sid = nsid, !.d = NewD, !.step = IF IsProd(c) THEN 1 ELSE 0,
                                                !.pre = IF IsProd(c) THEN 1 ELSE 0]
@@ -126,10 +136,10 @@ Adv(s) == [s EXCEPT !.op = IF NextOp = "t" THEN @ + 1 ELSE @]
 Tick ==
   /\ pc = "open" /\ NextOp \in {"t", "i"}
   /\ LET c == C  k == st.step + 1 IN
-     IF ~IsHttp
-     THEN IF st.dead
-          THEN /\ Ev("tick", "err") /\ outc' = [outc EXCEPT ![st.d] = "err"] /\ Over /\ UNCHANGED alog
-          ELSE IF RaisesAt(c, k)
+     IF st.dead          \* the dispatch already failed (socket init error / HTTP first step): the error surfaces now
+     THEN /\ Ev("tick", "err") /\ outc' = [outc EXCEPT ![st.d] = "err"] /\ Over /\ UNCHANGED alog
+     ELSE IF ~IsHttp
+     THEN IF RaisesAt(c, k)
           THEN /\ Ev("tick", "err") /\ outc' = [outc EXCEPT ![st.d] = "err"] /\ Over
                /\ alog' = Append(alog, Rec(ip, st.d, "stream", st.sid, "error", TRUE, FALSE))
           ELSE IF IsProd(c) /\ k > ProdLen
@@ -158,10 +168,10 @@ Close ==
 Cancel ==
   /\ pc = "open" /\ NextOp = "x"
   /\ Ev("cancel", "ok") /\ Over
-  /\ IF IsHttp
+  /\ IF st.dead THEN UNCHANGED <<alog, outc>>        \* nothing left to cancel: no dispatch
+     ELSE IF IsHttp
      THEN /\ outc' = Append(outc, "cancelled")
           /\ alog' = Append(alog, Rec(ip, NewD, "stream", st.sid, "ok", TRUE, TRUE))
-     ELSE IF st.dead THEN UNCHANGED <<alog, outc>>
      ELSE /\ outc' = [outc EXCEPT ![st.d] = "cancelled"]
           /\ alog' = Append(alog, Rec(ip, st.d, "stream", st.sid, "ok", TRUE, TRUE))
   /\ UNCHANGED <<tr, msg, script, ip, nsid>>
